@@ -187,7 +187,7 @@ var vcWhy []string
 // would be unsound, so it is left to the race-detector pass alone.
 func vectorClocksUsable() bool {
 	vcOnce.Do(func() {
-		b, err := os.ReadFile("/verif/.work/instr/instr-stats.json")
+		b, err := os.ReadFile(harness.OutRoot + "/.work/instr/instr-stats.json")
 		if err != nil {
 			return
 		}
